@@ -17,12 +17,13 @@ cancel while a child's result is in flight, stop between a task completion and i
   oracle          the property text: C11 - an accepted stop holds the requested state with the given message until the
                   end, output included; after a cancel every descendant that was unfinished is CANCELLED at once and its
                   parent task is CANCELLED once the run has drained; every finished sub-workflow is reported to its parent
-                  exactly once; no task or sub-workflow execution is created in a stopped workflow (after a cancel: anywhere
-                  below it) afterwards.  C10 - after an acknowledged pause the workflow and every sub-workflow below it that
+                  exactly once; no task is created in a stopped workflow afterwards, after a cancel nowhere below it either: a
+                  sub-workflow whose start request was on its way is created CANCELLED, never owns a task, and its parent task
+                  ends CANCELLED.  C10 - after an acknowledged pause the workflow and every sub-workflow below it that
                   was not finished is PAUSED.
 
-corpus/stoptree/*.json: minimal histories of the findings of this part (A open; B, C fixed by repo commit 85c5b051, must
-replay clean); they run first in every check.
+corpus/stoptree/*.json: minimal histories of the findings of this part (A fixed by repo commit 404dec69; B, C by 85c5b051; D =
+scenario of a seeded change), all must replay clean; they run first in every check.
 
 SELFTEST (scratch worktree = /repo HEAD 85c5b051 + the change; `VERIF_REPO=<wt> ./check C11` resp.
 `PYTHONPATH=<wt>:/verif python -m harness.engine_stoptree 260 0`):
@@ -259,6 +260,7 @@ class Run:
         self.stats = collections.Counter()
         self.held = {}          # wf id -> expectations recorded at an accepted stop
         self.frozen = {}        # wf id -> (set of task ids, set of sub-workflow ids) that may exist in it from now on
+        self.late = {}          # sub-workflows created below a CANCELLED workflow after the cancel
         self.sent = collections.Counter()   # child wf id -> results sent to the parent
         self.msgs = [o.get('msg') for o in case['ops'] if o.get('msg')]
 
@@ -318,6 +320,10 @@ class Run:
             p = it['payload']
             if it['kind'] == 'rpc' and p['method'] == 'on_action_complete' and p['kw'].get('wf_action'):
                 handoff = ('rpc', p['kw']['action_ex_id'])
+            if it['kind'] == 'rpc' and p['method'] == 'start_workflow' and p['kw'].get('task_execution_id'):
+                handoff = ('start', p['kw']['task_execution_id'])
+            if it['kind'] == 'rpc' and p['method'] == 'start_task' and p['kw'].get('first_run'):
+                handoff = ('start', p['kw']['task_ex_id'])     # (compared when it creates sub-workflow executions)
         else:
             j = d._job_by_id(ev[1])
             if j:
@@ -338,7 +344,9 @@ class Run:
             after = self.snap()
             child = handoff[1]
             pt = before['wf'].get(child, {}).get('ptask')
-            if handoff[0] == 'update':
+            if handoff[0] == 'start':
+                self.start_event(before, after, child, out)
+            elif handoff[0] == 'update':
                 # the pause / resume of a sub-workflow is reported to its with-items parent task
                 if child in before['wf']:
                     self.model_event('notify', before, after, child, out, self.labels[-1])
@@ -348,6 +356,32 @@ class Run:
                 if (handoff[0] == 'rpc' and not items) or (handoff[0] == 'job' and items):
                     self.model_event('deliver', before, after, child, out, self.labels[-1])
         self.after_any_event()
+
+    def start_event(self, before, after, task_id, out):
+        """the start_workflow request of a sub-workflow task is processed: compare the new execution with start_child_at"""
+        if task_id not in before['task'] or out != 'ok':
+            return
+        new = [w for w, r in after['wf'].items() if r['ptask'] == task_id and w not in before['wf']]
+        if not new:
+            return
+        owner = before['task'][task_id]['wf']
+        term, addr = self.coq_tree(before, before)
+        if owner not in addr:
+            return
+        root, tasks, subs = tree_ids(before)
+        ti = tasks[owner].index(task_id)
+        base = {'wf': dict(before['wf']), 'task': dict(before['task']), 'sent': before['sent']}
+        for x in new:
+            base['wf'][x] = dict(after['wf'][x], index=10 ** 6 + after['wf'][x]['index'])     # the model appends the new executions
+            if after['wf'][x]['state'] != 'RUNNING':
+                # (a RUNNING one is shown bare: its first tasks come from the workflow definition)
+                for t, r in after['task'].items():
+                    if r['wf'] == x:
+                        base['task'][t] = r
+        impl_tree, _ = self.coq_tree(after, base, show=True)
+        path = core.coq_list(['(%d, %d)' % q for q in addr[owner]])
+        self.model_cases.append({'kind': 'start', 'expr': 'show_result (start_child_at %s %d %d %s)' % (path, ti, len(new), term),
+                                 'impl': [impl_tree, out], 'what': self.labels[-1]})
 
     def snap(self):
         self.count_new_handoffs()
@@ -407,12 +441,21 @@ class Run:
             new_w = [s for s, r in snap['wf'].items() if r['ptask'] is not None and snap['task'].get(r['ptask'], {}).get('wf') == w and s not in wset]
             if new_w:
                 wset.update(new_w)
-                if why == 'cancelled':
-                    # the sub-workflow did not exist at the time of the cancel: the start request of its parent task (or of
-                    # the sub-workflow itself) was still in flight and is obeyed afterwards (OPEN finding, known_findings.json)
-                    self.fail('cancel:subworkflow-started-after-cancel', 'sub-workflow %s was created below workflow %s after that was cancelled '
-                              '(its start was in flight); it goes on to create its own tasks below the cancelled workflow' % (
-                                  [pth.get(s) for s in new_w], pth.get(w)))
+                if why == 'cancelled' and snap['wf'][w]['state'] == 'CANCELLED':
+                    # the sub-workflow did not exist at the time of the cancel: the start request of its parent task (or of the
+                    # sub-workflow itself) was still on its way.  It must be cancelled at once, never own a task, and its parent
+                    # task must end CANCELLED (checked from now on / at the end)
+                    for x in new_w:
+                        self.late[x] = {'owner': w, 'task_live': snap['task'][snap['wf'][x]['ptask']]['state'] not in FINAL + ('SKIPPED',)}
+                    self.stats['sub-workflow-started-below-cancelled-workflow'] += len(new_w)
+                elif why == 'cancelled':
+                    self.stats['sub-workflow-started-below-finished-not-cancelled-workflow'] += len(new_w)
+        for x, rec in self.late.items():
+            ts = [r['name'] for t, r in snap['task'].items() if r['wf'] == x]
+            if ts and not rec.get('flagged'):
+                rec['flagged'] = True
+                self.fail('cancel:late-subworkflow-created-tasks', 'sub-workflow %s, started below workflow %s after that was cancelled (its start request '
+                          'was on its way), is %s and created the tasks %s below the cancelled workflow' % (pth.get(x), pth.get(rec['owner']), snap['wf'][x]['state'], ts))
 
     # ---- operator requests
     def pick_target(self, snap, sel):
@@ -600,6 +643,16 @@ class Run:
                 if task_was_live and pt['state'] != 'CANCELLED':
                     self.fail('cancel:parent-task-not-CANCELLED:%s' % ('with-items' if pt['items'] else 'plain'),
                               'at the end the parent task %s of the cancelled sub-workflow %s (%s) is %s' % (pt['name'], pth[s], label, pt['state']))
+        # a sub-workflow started below a cancelled workflow after the cancel: CANCELLED, and so is its parent task
+        for x, rec in self.late.items():
+            r = snap['wf'][x]
+            pt = snap['task'][r['ptask']]
+            if r['state'] != 'CANCELLED':
+                self.fail('cancel:late-subworkflow-not-CANCELLED', 'at the end the sub-workflow %s started below the cancelled workflow %s is %s' % (
+                    pth[x], pth[rec['owner']], r['state']))
+            elif rec['task_live'] and pt['state'] != 'CANCELLED':
+                self.fail('cancel:late-subworkflow-parent-task-not-CANCELLED', 'at the end the parent task %s of the sub-workflow %s started below the '
+                          'cancelled workflow %s is %s' % (pt['name'], pth[x], pth[rec['owner']], pt['state']))
         # every finished sub-workflow was reported to its parent exactly once
         for w, r in snap['wf'].items():
             if r['ptask'] is None:
@@ -727,7 +780,7 @@ def run(ctx, n_cases, suite='engine_stoptree', props=('C11', 'C10')):
         if c.get('corpus'):
             got = sorted(set(f['signature'] for f in r['failures']))
             stats['corpus:%s:%s' % (c['corpus'], 'as-expected' if got == sorted(c['expect']) else 'DIFFERENT %s' % got)] += 1
-    n_model = check_model(ctx, results, suite, kinds=None if 'C11' in props else ('pause', 'resume', 'notify'))
+    n_model = check_model(ctx, results, suite, kinds=None if 'C11' in props else ('pause', 'resume', 'notify'))   # (C11: all kinds incl. deliver, start)
     st = ctx.cov['suites'].setdefault(suite, {})
     st['input_distribution'] = dict(dist)
     st['observed'] = dict(stats)
